@@ -69,6 +69,17 @@ static const cfg_t cfgs[] = {
     { "U0.low+U0.high+X", 0, M_DYN, 3,
       { ACT(A_U0, L_LOW, U_UNLOCK, 1, 0), ACT(A_U0, L_HIGH, U_UNLOCK, 1, 0),
         ACT(A_EXT, L_LOCK, U_UNLOCK, 1, 0) } },
+    /* the holder is descheduled inside the critical section on the stream where
+     * a lock_high / lock_low caller arrives while somebody else already waits */
+    { "U0.lock(yield-in-cs)+X.lock+U0.high", 1, M_DYN, 3,
+      { ACT(A_U0, L_LOCK, U_UNLOCK, 1, 1), ACT(A_EXT, L_LOCK, U_UNLOCK, 1, 0),
+        ACT(A_U0, L_HIGH, U_UNLOCK, 1, 0) } },
+    { "U0.low(yield-in-cs)+U1.lock+U0.low+ (recursive)", 0, M_REC, 3,
+      { ACT(A_U0, L_LOW, U_UNLOCK, 1, 1), ACT(A_U1, L_LOCK, U_UNLOCK, 1, 0),
+        ACT(A_U0, L_LOW, U_SE, 1, 0) } },
+    { "U0.high(yield-in-cs)+U0.high+U1.high", 0, M_DYN, 3,
+      { ACT(A_U0, L_HIGH, U_UNLOCK, 1, 1), ACT(A_U0, L_HIGH, U_DE, 1, 1),
+        ACT(A_U1, L_HIGH, U_UNLOCK, 1, 0) } },
 };
 
 static const cfg_t *C;
